@@ -44,6 +44,26 @@ def checkpicosvg (allowText dropUnsupported : Bool) : DocM (List Violation) := d
     setRoot r
   pure viol
 
+/-- `_remove_orphaned_gradients()` after pruning (no master-defs purge here), then `elements = None` -/
+def removeOrphansAfterPruning : DocM Unit := do
+  let shapes ← elements
+  let root ← getRoot
+  let mut used : List String := []
+  for (_, shs) in shapes do
+    for sh in shs do
+      let f := sh.getS "fill"
+      if f.startsWith "url(" then
+        match resolveUrl root f "*" with
+        | .ok el => if isGradientTag el.tag then used := used ++ [(el.getAttr "id").getD ""]
+        | .error _ => pure ()
+  let grads := root.elems.filter (fun n => (Node.splitNs n.tag).1 == some svgNs && isGradLocal n.localTag)
+  let mut r := root
+  for g in grads do
+    let keep := match g.getAttr "id" with | some i => used.contains i | none => false
+    if !keep then r := Node.removeUid r g.uid
+  setRoot r
+  dropCache
+
 /-- groups left underfull by pruning are flattened: reversed depth-first, `_try_remove_group` -/
 def flattenGroups : DocM Unit := do
   let root ← getRoot
@@ -78,7 +98,9 @@ def topicosvg (ndigits : Int) (allowText dropUnsupported noneGood : Bool) : DocM
   roundFloats ndigits
   removeEmptySubpaths
   removeUnpaintedShapes
+  removeOrphansAfterPruning
   flattenGroups
+  roundFloats ndigits
   let viol ← checkpicosvg allowText dropUnsupported
   if !viol.isEmpty then fail .valueError
 
